@@ -50,6 +50,18 @@ func main() {
 
 func init() {
 	props["C01"] = runC01
+	props["C02"] = runC02
+	props["C05"] = runC05
+	props["C06"] = runC06
+	props["C07"] = runC07
+	props["C08"] = runC08
+	props["C12"] = runC12
+	props["C13"] = runC13
+	props["C14"] = runC14
+	props["C16"] = runC16
+	props["C17"] = runC17
+	props["C18"] = runC18
+	props["C19"] = runC19
 	props["C03"] = runC03
 	props["C04"] = runC04
 	props["C09"] = runC09
